@@ -809,10 +809,66 @@ def r05_8(prog, tab):
     return r
 
 
+def r05_9(prog, tab):
+    """Bits taken from a parked bit stream are given back, or accounted for, before asking for more data.  Where a
+    restartable decoder reads presence bits with asn_get_few_bits() from a bit-stream object that lives in the decoder
+    context (a local loaded from `ctx->ptr`) and can then return RC_WMORE, every path from the read to that return passes
+    asn_get_undo() on the same object or a store into the context (the microphase / step that makes the resumed call
+    skip the read).  Otherwise the resumed call reads the *next* bit for the same member."""
+    from .c15 import must_pass
+    r = Rule("R05.9", "a bit read from a bit stream parked in the decoder context is undone or recorded in the context before RC_WMORE", floor=3)
+    for f in scope_decoders(prog):
+        parked = set()
+        for b, i, e in f.events():
+            tr, vid = None, None
+            if e["k"] == "decl" and "init" in e:
+                vid, tr = e["id"], e["init"]["tree"]
+            elif e["k"] == "assign" and "rhs" in e and is_var(e.get("lhs_tree")) and e.get("op") == "=":
+                vid, tr = strip_casts(e["lhs_tree"])[1], e["rhs"]["tree"]
+            if vid and tr is not None:
+                t = strip_casts(tr)
+                if isinstance(t, list) and t and t[0] == "member" and t[2] == "ptr" and "asn_struct_ctx" in str(t[4]):
+                    parked.add(vid)
+        if not parked:
+            continue
+        rets = [(b, i, e) for b, i, e, codes in dec_returns(f) if any(c[0] == "WMORE" for c in codes)]
+        n = 0
+        for b, i, e in f.calls():
+            if e.get("callee") != "asn_get_few_bits" or not e.get("args"):
+                continue
+            x = strip_casts(e["args"][0]["tree"])
+            if not (is_var(x) and x[1] in parked):
+                continue
+            n += 1
+            key = "asn_get_few_bits(%s)#%d" % (x[1].split("@")[0], n)
+
+            def settles(y, xid=x[1]):
+                if is_ctx_write(y):
+                    return True
+                return y["k"] == "call" and y.get("callee") == "asn_get_undo" and y.get("args") and is_var(y["args"][0]["tree"], xid)
+            bad = None
+            for rb, ri, re_ in rets:
+                if rb.id != b.id and rb.id not in f.reachable_from(b.succs()):
+                    continue
+                if any(settles(y) for y in b.ev[i + 1:]):
+                    continue
+                if rb.id == b.id and ri > i:
+                    continue
+                if not all(must_pass(f, s_, rb.id, ri, settles) for s_ in b.succs()):
+                    bad = re_
+                    break
+            if bad is None:
+                r.ok(f, key, "every path from the read to an RC_WMORE return undoes the read or stores into the context", e["line"])
+            else:
+                r.bad(f, key, "the RC_WMORE return at line %s is reached from this read without asn_get_undo() on the stream and without a store "
+                              "into the context: the resumed call reads the next bit for the same member" % bad.get("line"), e["line"])
+    return r
+
+
 def run(ctx):
     prog = ctx.prog("S")
     tab = load_tables("c05")
-    return run_rules(prog, tab) + [r05_3(prog, tab), r05_4(prog, tab), r05_5(prog, tab), r05_6(prog, tab), r05_7(prog, tab), r05_8(prog, tab)]
+    return run_rules(prog, tab) + [r05_3(prog, tab), r05_4(prog, tab), r05_5(prog, tab), r05_6(prog, tab), r05_7(prog, tab), r05_8(prog, tab), r05_9(prog, tab)]
 
 
 def thorough(ctx):
